@@ -29,10 +29,17 @@ ENGINES = ["txbal"]
 
 
 MAX_FEE = 1000     # TxBalance!MaxFee: stand-in of FeeFields::FEE_MASK, the largest fee of a single kernel
+FEE_MASK = (1 << 40) - 1
+
+
+def nanogrin(v):
+    """model amount (three digits, see TxBalance.tla) -> nanogrin"""
+    return (v % 1000) * 15_000_000_000 + (v // 1000 % 1000) * FEE_MASK + v // 1_000_000
 
 
 def total_fee(case):
-    return sum(k["fee"] for k in case["body"]["kerns"] if k["kind"] != "cb")
+    """total fee of the body in nanogrin"""
+    return sum(nanogrin(k["fee"]) for k in case["body"]["kerns"] if k["kind"] != "cb")
 
 
 def signature(case):
@@ -40,7 +47,7 @@ def signature(case):
     if ctx["as"] == "block" and case["applied"] == ["fees_paid_to_plain_output"] and exp["rule"] == "verify_coinbase":
         # the coinbase claims the bare subsidy, a plain output collects the fees
         return "txbal:block:accepted:fees_not_claimed_by_coinbase:total_fee_%s_single_kernel_limit" % (
-            "over" if total_fee(case) > MAX_FEE else "within")
+            "over" if total_fee(case) > FEE_MASK else "within")
     if ctx["as"] == "block" and ctx["total"] == 0 and ctx["prev"] != 0 and exp["rule"] == "kernel_sums":
         # the block's own offset (total - prev) was not applied
         return "txbal:block:accepted:total_offset_zero_prev_nonzero"
@@ -151,6 +158,7 @@ def run(tier, replay):
     by_rule = collections.Counter()
     groups = set()
     converse = []
+    sig_seen = collections.Counter()
     for c in cases:
         r = res[c["id"]]
         exp = c["expect"]
@@ -178,7 +186,7 @@ def run(tier, replay):
         if c["grp"].get("big"):
             counts["fee_magnitude_cases"] += 1
             nmax = sum(1 for k in c["body"]["kerns"] if k["fee"] == MAX_FEE)
-            if total_fee(c) > MAX_FEE:
+            if total_fee(c) > FEE_MASK:
                 key = "%s_total_fee_over_single_kernel_limit" % c["ctx"]["as"]
                 counts[key] += 1
                 if not c["applied"] and r["res"] == "ok":
@@ -186,7 +194,9 @@ def run(tier, replay):
                 if c["applied"] == ["fees_paid_to_plain_output"] and r["res"] != "ok":
                     counts["block_fees_to_plain_output_refused:kernels_at_max=%d" % nmax] += 1
         if verdict == "violation":
-            rep.violation(signature(c), c, text)
+            sig_seen[signature(c)] += 1
+            if sig_seen[signature(c)] <= 3:        # a few replays per signature are enough
+                rep.violation(signature(c), c, text)
         elif verdict == "converse":
             converse.append((c, r, text))
 
